@@ -29,7 +29,10 @@ def run(ctx):
     ctx.rule("R4.guard-brackets-clone", "scopeguard armed before T::clone, defused after the regional store; its closure resets the slot and sets the event", floor=2)
     ctx.rule("R5.per-thread-region-resolution", "try_locate_regional_state is called from the linked instance factory closure only; set_local indexes by current_memory_region_id", floor=3)
 
+    ctx.rule("R6.invalidate-visits-every-region", "invalidate_regions clears every initialised regional slot: the loop runs over all of regional_states to exhaustion, skipping (not stopping at) uninitialised slots", floor=1)
+    ctx.rule("R7.fresh-generation-per-write", "the generation drawn for a write can never equal the initial value's generation: next_generation starts above the constant stamped on the initial value, and is only ever incremented", floor=2)
     rcv = "region_cached::region_cached::RegionCached"
+    invalidate_and_generation_rules(ctx, prog)
     sg = prog.one("region_cached::RegionCached::set_global")
     if sg is None:
         ctx.missing("R1.publish-then-invalidate", "RegionCached::set_global")
@@ -157,3 +160,59 @@ def run(ctx):
             ok = any(k.endswith("current_memory_region_id") for k, _, _ in s["calls"]) and not s["binops"]
         ctx.ob("R5.per-thread-region-resolution", "region_local.set_local-writes-own-region", ok, sl_.loc(),
                "set_local updates exactly the slot of current_memory_region_id() (no loop over regions)")
+
+
+def invalidate_and_generation_rules(ctx, prog):
+    from ..analysis import loop_visits_all
+    from ..mir import resolve_const
+    inv = prog.one("region_cached::GlobalState::invalidate_regions")
+    if inv is None:
+        ctx.missing("R6.invalidate-visits-every-region", "GlobalState::invalidate_regions")
+    else:
+        ctx.fn(inv)
+        cl = [(bb, t) for bb, t in inv.calls() if t["callee"].get("method") == "clear" and "RegionalState" in callee_key(t["callee"])]
+        ok = len(cl) == 1 and inv.in_loop(cl[0][0])
+        det = f"RegionalState::clear sites {len(cl)} (in loop: {ok})"
+        if ok:
+            okv, d2 = loop_visits_all(inv, cl[0][0])
+            src_ok = False
+            for bb, t in inv.calls():
+                if t["callee"].get("method") == "next":
+                    src_ok = src_ok or any(f.endswith("GlobalState::regional_states") for f in Slice(inv).run(t["args"][0])["fields"])
+            ok = okv and src_ok
+            det += f"; iterates regional_states: {src_ok}; {d2}"
+        ctx.ob("R6.invalidate-visits-every-region", "invalidate_regions", ok, inv.loc(), det)
+    new = prog.one("region_cached::GlobalState::new")
+    if new is None:
+        ctx.missing("R7.fresh-generation-per-write", "GlobalState::new")
+        return
+    ctx.fn(new)
+    gen0 = None
+    next0 = None
+    for blk in new.blocks:
+        for st in blk.stmts:
+            if st["k"] == "assign" and st["rv"]["k"] == "aggr":
+                names = st["rv"].get("fields") or []
+                adt = str(st["rv"].get("adt", ""))
+                if adt.endswith("GenerationValue") and "generation" in names:
+                    c = resolve_const(new, st["rv"]["ops"][names.index("generation")])
+                    gen0 = c.get("val") if c else None
+                if adt.endswith("GlobalState") and "next_generation" in names:
+                    sl = Slice(new).run(st["rv"]["ops"][names.index("next_generation")])
+                    vs = [c.get("val") for c in sl["consts"] if "val" in c]
+                    news = [k for k, _b, _t in sl["calls"] if k.endswith("::new")]
+                    next0 = vs[0] if len(vs) == 1 and news else None
+    ok = gen0 is not None and next0 is not None and next0 > gen0
+    ctx.ob("R7.fresh-generation-per-write", "initial-constants", ok, new.loc(),
+           f"initial value's generation = {gen0}; next_generation starts at {next0} (must be strictly greater)")
+    # next_generation only ever advanced by fetch_add of a positive constant
+    ops = []
+    for b in prog.bodies:
+        if b.crate != "region_cached":
+            continue
+        for e in atomic_events(b):
+            if e["field"] and e["field"].endswith("next_generation") and e["op"] not in ("load",):
+                ops.append((b, e))
+    ok = bool(ops) and all(e["op"] == "fetch_add" and e["vals"] and isinstance(e["vals"][0], int) and e["vals"][0] >= 1 for _b, e in ops)
+    ctx.ob("R7.fresh-generation-per-write", "monotone", ok, ops[0][0].loc() if ops else "",
+           f"writes to next_generation: {[(b.name, e['op'], e['vals']) for b, e in ops]}")
